@@ -60,6 +60,9 @@ func gen(r *sim.Rng, tier string) *sim.Case {
 		nT, maxOps = r.Range(6, 10), 2 // rare: many threads, one or two operations each
 	}
 	c.Params["init"] = r.Pick(5, 3, 2, 1)
+	if r.Pct(3) {
+		c.Params["init"] = r.Range(40, 120)
+	}
 	total := 0
 	// swarm: op mix per case
 	wPush, wPop, wLen, wWait := r.Range(1, 6), r.Range(1, 6), r.Range(0, 3), r.Range(0, 2)
@@ -325,6 +328,10 @@ func check(run *enga.Run) *sim.Violation {
 			}
 			ops = append(ops, o)
 		}
+	}
+	if len(x.init) > 8 {
+		// long initial content: the FIFO clauses are checked by conservation and the probes
+		return nil
 	}
 	if len(ops) > 28 {
 		run.Out.Probes["history_too_long_for_linearizability_check"]++
